@@ -25,6 +25,26 @@ def oracle_no_panic(src, ops, tail):
     return None
 
 
+def _mentions_untracked(ref, expr, seen=None):
+    """does the expression reach a node the reference does not track (a node handed out by a bind closure, reached
+    through a program handle)?  Such a node may have been invalidated by its bind, and a bind main that once copied
+    an invalid right-hand side stays invalid: C01 speaks about observers of valid nodes only."""
+    seen = set() if seen is None else seen
+    if isinstance(expr, (list, tuple)):
+        if len(expr) >= 1 and expr[0] == "unknown":
+            return True
+        if len(expr) == 2 and expr[0] in ("late", "outer") and isinstance(expr[1], int):
+            h = expr[1]
+            if h in seen:
+                return False
+            seen.add(h)
+            return h >= len(ref.handles) or _mentions_untracked(ref, ref.handles[h], seen)
+        return any(_mentions_untracked(ref, x, seen) for x in expr)
+    if isinstance(expr, dict):
+        return any(_mentions_untracked(ref, x, seen) for x in expr.values())
+    return False
+
+
 # ---------------------------------------------------------------- C01 / C07: values
 def oracle_values(src, ops, tail, check_frame=True):
     """C01: after a completed stabilise every in-use observer reads the from-scratch value of its node
@@ -66,7 +86,7 @@ def oracle_values(src, ops, tail, check_frame=True):
                         want = "v:" + show(ref.eval(o["expr"], snapshot))
                     except Impure:
                         want = None
-            if want is not None and res != want and not (res == "e:4" and o["expr"][0] == "unknown"):
+            if want is not None and res != want and not (res == "e:4" and _mentions_untracked(ref, o["expr"])):
                 return f"op {op.idx} `{line}`: observer reads {res}, reference says {want}"
             if check_frame:
                 prev = last_read.get(parsed[1])
